@@ -55,7 +55,6 @@ def run(ctx):
     # ------------------------------------------------------------ the definition
     ctx.rule("definition")
     # role: the function both constructors call to fill the two fields
-    cons = [B + "::from_fen", "cozy_chess::board::builder::BoardBuilder::add_board"]
     defn = None
     from .common import checkers_pins_definition
     for k in checkers_pins_definition(f):
@@ -239,14 +238,21 @@ def run(ctx):
 
     # ------------------------------------------------------------ constructors
     ctx.rule("constructors")
+    # the functions that fill the two fields from the definition (by role: they call it and are not validators)
+    from . import gate as gatemod
+    from ..facts import callee_name as _cn
+    g = gatemod.Gate(ctx, f)
+    cons = sorted(k for k, b_ in f.bodies.items() if b_.crate == "cozy_chess" and b_.kind in ("Fn", "AssocFn") and b_.promoted is None
+                  and g.validator_role(k) is None and any(_cn(t_) == defn.key for _, t_ in b_.calls()))
+    ctx.check(len(cons) >= 2, "constructors:found", "fewer than two constructor paths compute checkers and pins from the definition: %s" % cons)
     for cname in cons:
         cb = f.need(cname)
-        cps = sym.SymExec(f, cb, inline=lambda n: False if (n in W or n == defn.key or n.startswith(B + "::parse_") or "_is_valid" in n or "_are_valid" in n) else None,
+        cps = sym.SymExec(f, cb, inline=lambda n: False if (n in W or n == defn.key or g.is_stage(n) or g.validator_role(n) is not None) else None,
                           max_paths=100000).run()
         ctx.saw("%s: %d paths" % (cb.key, len(cps)))
         nok = 0
         for p in cps:
-            if p.end != "return" or not (p.ret[0] == "agg" and p.ret[2] == "Ok"):
+            if p.end != "return" or p.ret is None or not ((p.ret[0] == "agg" and p.ret[2] in ("Ok", "Some")) or p.ret in (sym.TRUE, ("tuple", ()))):
                 continue
             calls = [e for e in p.events if e.kind == "call" and e.depth == 0 and e.name == defn.key]
             own = []
@@ -260,8 +266,8 @@ def run(ctx):
             e = own[0]
             later_place = [x.name.rsplit("::", 1)[-1] for x in p.events if x.kind == "call" and x.idx > e.idx and
                            (x.name in W and len(x.args) == 4 or (x.name in W and len(x.args) == 1))]
-            later_place += [x.name.rsplit("::", 1)[-1] for x in p.events if x.kind == "call" and x.idx > e.idx and x.name.endswith("::parse_board")]
-            later_place += [x.name.rsplit("::", 1)[-1] for x in p.events if x.kind == "call" and x.idx > e.idx and x.name.endswith("::parse_side_to_move")]
+            later_place += [x.name.rsplit("::", 1)[-1] for x in p.events if x.kind == "call" and x.idx > e.idx and g.is_stage(x.name)
+                            and g.stage_kind(x.name) & {"placement", "side"}]
             ctx.check(not later_place, "%s:no-placement-after" % cname.rsplit("::", 1)[-1],
                       "placement or side writers run after checkers/pins were computed: %s" % later_place, loc(cb))
             # the two fields are assigned from the pair, in the definition's order
